@@ -28,6 +28,7 @@ META["explanation"] += ' R11.4 also requires the tag shift to accompany every st
 META["explanation"] += ' R11.8 inside a loop that inserts into the sorted buffer, a searched position is not compared with a length of the buffer read before the loop.'
 META["explanation"] += " R11.9 every positional access to the sorted buffer (get / remove / set / insert / ..) takes a position that is not a diff's own index payload (a source-order index) unless it went through a search."
 META["explanation"] += ' R11.10 a searched position that is then advanced over a run of items (take_while(pred).count()) walks only over items not greater than the new value (polarity of Ordering::is_* against the argument order of the comparison). Shared: R10.12.'
+META["explanation"] += ' R11.4c looks through order-preserving iterator adapters and plain copies of the incoming vector (sorted first, numbered afterwards is a violation). R11.12 a working collection handed to the translator is empty between diffs: no arm drains it without clearing first while another arm leaves items in it.'
 
 STRUCT = {"append", "clear", "push_front", "push_back", "pop_front", "pop_back", "insert", "set", "remove", "truncate", "retain", "split_off", "slice", "extend"}
 TRANSLATOR = "vector::sort::handle_diff_and_update_buffered_vector"
@@ -73,6 +74,7 @@ def run(ctx):
     r11_8(ctx, f, b, buf)
     r11_9(ctx, f, b, buf)
     r11_10(ctx, f)
+    r11_12(ctx, f, b, sw, arms)
     from . import c10
     c10.r10_12(ctx)
     bulk_tags(ctx, f, sw, arms, buf)
@@ -495,6 +497,50 @@ def locate_by_tag(ctx, f, b, sw, target, v, buf):
                     "sort translator, arm %s: the element is located by tag == `%s` instead of %s" % (v, fmt(other, 3), want))
 
 
+def r11_12(ctx, f, b, sw, arms):
+    """scratch collections carry nothing from one diff to the next.  A `&mut Vec` (VecDeque, SmallVec ..) the translator is handed
+    besides the sorted buffer is working space: an arm that fills it with the incoming items and then moves *everything* out of it
+    (drain(..), mem::take) treats it as empty on entry. That is only true if every arm that puts items into it also empties it
+    before it ends - or if the draining arm clears it first. One arm that leaves its items behind (clear on entry, iterate, no
+    drain) next to one that drains without clearing re-inserts the first arm's items with the next diff."""
+    cols = [i for i in range(1, b.arg_count + 1) if re.search(r"^&mut (std::vec::Vec|std::collections::VecDeque|smallvec::SmallVec|arrayvec::ArrayVec)<", str(b.locals[i]["ty"]))
+            and "VectorDiff<" not in str(b.locals[i]["ty"])]
+    n = 0
+    for p_ in cols:
+        def on_p(t):
+            return bool(t["args"]) and contains(b.expr_of_op(t["args"][0]), lambda y: y[0] == "param" and y[1] == p_)
+        grow = {blk for blk, t in b.calls(r"::(extend|push|push_back|push_front|append|insert|extend_from_slice)$") if on_p(t)}
+        def full_range(t):
+            return len(t["args"]) < 2 or "RangeFull" in str(fmt(b.expr_of_op(t["args"][1]), 3)) or "RangeFull" in str((t.get("extra") or {}).get("full"))
+        drains = {blk for blk, t in b.calls(r"::drain$") if on_p(t) and full_range(t)} | {blk for blk, t in b.calls(r"^std::mem::take$") if on_p(t)}
+        clears = {blk for blk, t in b.calls(r"::clear$") if on_p(t)}
+        empties = drains | clears
+        scratch_arms, leaky_arms = [], []
+        for v, tgt in sorted(arms.items()):
+            region = arm_region(b, sw, tgt)
+            g = sorted(grow & region)
+            if not g:
+                continue
+            entry_clear = all(gb not in b.reachable_from(tgt, avoid_blocks=sorted(empties & region)) for gb in g) and tgt not in g
+            rets = set(b.return_blocks())
+            exit_empty = all(not (b.reachable_from(gb, avoid_blocks=sorted((empties & region) - {gb})) & rets) for gb in g)
+            drains_after = any(d in b.reachable_from(gb) for gb in g for d in drains & region)
+            if drains_after and not entry_clear:
+                scratch_arms.append(v)
+            if not exit_empty:
+                leaky_arms.append(v)
+        if not (scratch_arms or leaky_arms) and not grow:
+            continue
+        n += 1
+        nm = b.locals[p_].get("name") or "_%d" % p_
+        bad = bool(scratch_arms) and bool(leaky_arms)
+        ctx.verdict(not bad, "R11.12", f, "scratch-empty-between-diffs:%s" % nm, f.loc(), "every arm that fills `%s` empties it again, or the arms that drain it clear it first" % nm,
+                    "sort translator: the %s arm fills the working vector `%s` and moves everything out of it again (drain(..)), so it relies on `%s` being empty when the arm starts; the %s arm puts items into it and leaves them "
+                    "there. The first %s after a %s therefore re-inserts all items of the earlier diff: every earlier item appears twice in the sorted view and the source-index tags are duplicated" % (
+                        " / ".join(scratch_arms), nm, nm, " / ".join(leaky_arms), scratch_arms[0] if scratch_arms else "?", leaky_arms[0] if leaky_arms else "?"))
+    return n
+
+
 def bulk_tags(ctx, f, sw, arms, buf):
     """R11.4c: source-index tags given to whole vectors (constructor, Reset, Append): enumerate() runs over the items in SOURCE order
     (before any sorting), without offset for the constructor and Reset, with offset = buffer length before the append for Append."""
@@ -526,16 +572,36 @@ def bulk_tags(ctx, f, sw, arms, buf):
             probs = []
             # (1) source order: the enumerated iterator comes from the incoming vector, which has not been sorted before
             base = None
+            # order-preserving adapters between the vector and enumerate() do not matter
+            while x[0] == "call" and ecall_matches(x, r"Iterator>?::(cloned|copied|by_ref|peekable|fuse)$") and x[3]:
+                x = strip(x[3][0], through_calls=False)
             if x[0] == "call" and ecall_matches(x, r"IntoIterator>?::into_iter$|::iter$|::into_iter$") and x[3]:
                 base = strip(x[3][0])
             incoming = base is not None and (base[0] == "param" or (base[0] == "field" and base[1][0] == "downcast"))
+            if base is not None and not incoming:
+                # a plain copy of the incoming vector (`incoming.into_iter().collect::<Vec<_>>()`) is the incoming vector in the same order
+                y = strip(base, through_calls=False)
+                if y[0] == "call" and ecall_matches(y, r"Iterator>?::collect$|FromIterator>?::from_iter$|::from$") and y[3]:
+                    z = strip(y[3][0], through_calls=False)
+                    while z[0] == "call" and ecall_matches(z, r"Iterator>?::(cloned|copied|by_ref)$") and z[3]:
+                        z = strip(z[3][0], through_calls=False)
+                    if z[0] == "call" and ecall_matches(z, r"IntoIterator>?::into_iter$|::iter$|::into_iter$") and z[3]:
+                        z0 = strip(z[3][0])
+                        if z0[0] == "param" or (z0[0] == "field" and z0[1][0] == "downcast"):
+                            incoming = True
             if base is None:
                 ctx.undecided("R11.4c", g, "bulk-tags:%s" % what, where, "enumerate over `%s`" % fmt(src, 3))
                 continue
             if not incoming:
                 probs.append("enumerate() runs over `%s`, not over the incoming vector in source order" % fmt(base, 3))
-            sorts = [sb for sb, st in gb.calls(r"::(sort|sort_by|sort_by_key|sort_unstable\w*)$") if gb.dominates(sb, blk) and sb != blk
-                     and strip(gb.expr_of_op(st["args"][0])) == base]
+            def same_vec(a_, b_):
+                if a_ == b_:
+                    return True
+                la = {c_[4] for c_ in find_all(a_, lambda y: y[0] == "call" and ecall_matches(y, r"Iterator>?::collect$|FromIterator>?::from_iter$")) if c_[4]}
+                lb = {c_[4] for c_ in find_all(b_, lambda y: y[0] == "call" and ecall_matches(y, r"Iterator>?::collect$|FromIterator>?::from_iter$")) if c_[4]}
+                return bool(la & lb)
+            sorts = [sb for sb, st in gb.calls(r"::(sort|sort_by|sort_by_key|sort_unstable\w*|sort_by_cached_key)$") if gb.dominates(sb, blk) and sb != blk
+                     and same_vec(strip(gb.expr_of_op(st["args"][0])), base)]
             if sorts:
                 probs.append("the vector is sorted (bb%d) before its items are numbered: the tags are sorted positions, not source indices" % sorts[0])
             # (2) offset added to the enumerate index
